@@ -141,9 +141,9 @@ type State struct {
 	SubscribeOK    int
 	SubscribeFail  int
 	GetLogs        []GetLogsReq
-	FaultsFired    int // injected faults that actually hit the client
+	FaultsFired    int    // injected faults that actually hit the client
 	LastFault      string // kind of the most recent one: kill | suberr | failget | killget | failsub
-	Conns          int // connections accepted so far
+	Conns          int    // connections accepted so far
 }
 
 type armedGet struct {
